@@ -30,7 +30,9 @@ Definition validate_header (nv : hval * hval) : result (E:=exn) header :=
            | Raise e => Raise e
            | Ok vb =>
                let n' := strip (c :: r) in let v' := strip vb in
-               if has_ctl n' || has_ctl v' then Raise EValueError else Ok (n', v')
+               (* a name that is a pseudo header once the white space around it is gone is one too (finding F67) *)
+               if starts_colon n' then Raise EValueError
+               else if has_ctl n' || has_ctl v' then Raise EValueError else Ok (n', v')
            end
   end.
 
